@@ -6,8 +6,8 @@
    multiplication algorithms, modular inverse, the 10x26 / 8x32 / struct-int128 / asm configurations,
    SHA-256/HMAC/RFC 6979) is tied by the differential correspondence of ./check C05 on a build matrix. *)
 From Coq Require Import ZArith List Bool.
-Require Import Kernel.CSem Kernel.Field5x52 Kernel.Field5x52Sqr Kernel.CtPrimitives Kernel.FieldNormalize Kernel.Scalar4x64 Kernel.ScalarMul512 Kernel.ScalarSqr512 Kernel.ScalarReduce512 Kernel.Scalar8x32Check Kernel.Scalar8x32Mul512 Kernel.Scalar8x32Reduce512.
-Require Import Gen.fe_mul_inner Gen.fe_sqr_inner Gen.scalar_cmov Gen.fe_impl_cmov Gen.fe_impl_normalize Gen.scalar_check_overflow Gen.scalar_is_high Gen.scalar_mul_512 Gen.scalar_sqr_512 Gen.scalar_reduce_512 Gen.scalar8x32_mul_512 Gen.scalar8x32_sqr_512 Gen.scalar8x32_check_overflow Gen.scalar8x32_reduce_512.
+Require Import Kernel.CSem Kernel.Field5x52 Kernel.Field5x52Sqr Kernel.CtPrimitives Kernel.FieldNormalize Kernel.Scalar4x64 Kernel.ScalarMul512 Kernel.ScalarSqr512 Kernel.ScalarReduce512 Kernel.Scalar8x32Check Kernel.Scalar8x32Mul512 Kernel.Scalar8x32Reduce512 Kernel.FieldPrims.
+Require Import Gen.fe_mul_inner Gen.fe_sqr_inner Gen.scalar_cmov Gen.fe_impl_cmov Gen.fe_impl_normalize Gen.scalar_check_overflow Gen.scalar_is_high Gen.scalar_mul_512 Gen.scalar_sqr_512 Gen.scalar_reduce_512 Gen.scalar8x32_mul_512 Gen.scalar8x32_sqr_512 Gen.scalar8x32_check_overflow Gen.scalar8x32_reduce_512 Gen.fe_impl_add Gen.fe_impl_negate_unchecked Gen.fe_impl_half Gen.scalar_negate.
 Import ListNotations.
 Local Open Scope Z_scope.
 
@@ -107,6 +107,40 @@ Theorem scalar8x32_reduce_512_correct : forall l0 l1 l2 l3 l4 l5 l6 l7 l8 l9 l10
     val8w r0 r1 r2 r3 r4 r5 r6 r7 = val16w l0 l1 l2 l3 l4 l5 l6 l7 l8 l9 l10 l11 l12 l13 l14 l15 mod N256).
 Proof. exact Kernel.Scalar8x32Reduce512.scalar8x32_reduce_512_correct. Qed.
 Print Assumptions scalar8x32_reduce_512_correct.
+(* Further limb-level primitives, exact for all in-contract inputs: field addition, negation (magnitude m -> m+1), halving
+   (branch-free "add p if odd", then a shift across the limbs), scalar negation modulo n. *)
+Theorem fe_add_correct : forall r0 r1 r2 r3 r4 a0 a1 a2 a3 a4,
+  0 <= r0 -> 0 <= r1 -> 0 <= r2 -> 0 <= r3 -> 0 <= r4 -> 0 <= a0 -> 0 <= a1 -> 0 <= a2 -> 0 <= a3 -> 0 <= a4 ->
+  r0 + a0 < 2^64 -> r1 + a1 < 2^64 -> r2 + a2 < 2^64 -> r3 + a3 < 2^64 -> r4 + a4 < 2^64 ->
+  fe_impl_add_k r0 r1 r2 r3 r4 a0 a1 a2 a3 a4 (fun s0 s1 s2 s3 s4 =>
+    s0 = r0 + a0 /\ s1 = r1 + a1 /\ s2 = r2 + a2 /\ s3 = r3 + a3 /\ s4 = r4 + a4 /\
+    val5 s0 s1 s2 s3 s4 = val5 r0 r1 r2 r3 r4 + val5 a0 a1 a2 a3 a4).
+Proof. exact Kernel.FieldPrims.fe_add_correct. Qed.
+Print Assumptions fe_add_correct.
+Theorem fe_negate_correct : forall a0 a1 a2 a3 a4 m,
+  0 <= m <= 31 ->
+  0 <= a0 <= 2 * m * 4503599627370495 -> 0 <= a1 <= 2 * m * 4503599627370495 -> 0 <= a2 <= 2 * m * 4503599627370495 ->
+  0 <= a3 <= 2 * m * 4503599627370495 -> 0 <= a4 <= 2 * m * 281474976710655 ->
+  fe_impl_negate_unchecked_k a0 a1 a2 a3 a4 m (fun r0 r1 r2 r3 r4 =>
+    (0 <= r0 <= 2 * (m + 1) * 4503599627370495 /\ 0 <= r1 <= 2 * (m + 1) * 4503599627370495 /\ 0 <= r2 <= 2 * (m + 1) * 4503599627370495 /\
+     0 <= r3 <= 2 * (m + 1) * 4503599627370495 /\ 0 <= r4 <= 2 * (m + 1) * 281474976710655) /\
+    val5 r0 r1 r2 r3 r4 = 2 * (m + 1) * P256 - val5 a0 a1 a2 a3 a4).
+Proof. exact Kernel.FieldPrims.fe_negate_correct. Qed.
+Print Assumptions fe_negate_correct.
+Theorem fe_half_correct : forall t0 t1 t2 t3 t4,
+  0 <= t0 < 2^58 -> 0 <= t1 < 2^58 -> 0 <= t2 < 2^58 -> 0 <= t3 < 2^58 -> 0 <= t4 < 2^54 ->
+  fe_impl_half_k t0 t1 t2 t3 t4 (fun r0 r1 r2 r3 r4 =>
+    (0 <= r0 < 2^58 /\ 0 <= r1 < 2^58 /\ 0 <= r2 < 2^58 /\ 0 <= r3 < 2^58 /\ 0 <= r4 < 2^54) /\
+    2 * val5 r0 r1 r2 r3 r4 = val5 t0 t1 t2 t3 t4 + (t0 mod 2) * P256).
+Proof. exact Kernel.FieldPrims.fe_half_correct. Qed.
+Print Assumptions fe_half_correct.
+Theorem scalar_negate_correct : forall a0 a1 a2 a3,
+  0 <= a0 < 2^64 -> 0 <= a1 < 2^64 -> 0 <= a2 < 2^64 -> 0 <= a3 < 2^64 -> val4 a0 a1 a2 a3 < N256 ->
+  scalar_negate_k a0 a1 a2 a3 (fun r0 r1 r2 r3 =>
+    (0 <= r0 < 2^64 /\ 0 <= r1 < 2^64 /\ 0 <= r2 < 2^64 /\ 0 <= r3 < 2^64) /\
+    val4 r0 r1 r2 r3 = (N256 - val4 a0 a1 a2 a3) mod N256).
+Proof. exact Kernel.FieldPrims.scalar_negate_correct. Qed.
+Print Assumptions scalar_negate_correct.
 Theorem N256_is_group_order : N256 = 0xFFFFFFFFFFFFFFFFFFFFFFFFFFFFFFFEBAAEDCE6AF48A03BBFD25E8CD0364141.
 Proof. reflexivity. Qed.
 
